@@ -227,10 +227,13 @@ nni_msgq_aio_put(nni_msgq *mq, nni_aio *aio)
 
 	// If this is an instantaneous poll operation, and the queue has
 	// no room, nobody is waiting to receive, then report NNG_ETIMEDOUT.
-	// (Only start the aio -- which applies the timeout -- when we will
-	// actually have to wait.)
-	if ((((mq->mq_len >= mq->mq_cap) &&
-	         nni_list_empty(&mq->mq_aio_getq)) ||
+	// (Only a poll that can be served at once skips nni_aio_start, which
+	// would apply its zero timeout.  Everything else is started first:
+	// an aio that completes without having been started is invisible to
+	// nni_aio_stop, and the raw protocols' pipe callbacks resubmit.)
+	if (((nni_aio_get_timeout(aio) != NNG_DURATION_ZERO) ||
+	        ((mq->mq_len >= mq->mq_cap) &&
+	            nni_list_empty(&mq->mq_aio_getq)) ||
 	        !nni_list_empty(&mq->mq_aio_putq)) &&
 	    (!nni_aio_start(aio, nni_msgq_cancel, mq))) {
 		nni_mtx_unlock(&mq->mq_lock);
@@ -255,7 +258,9 @@ nni_msgq_aio_get(nni_msgq *mq, nni_aio *aio)
 	// Only start the aio (which applies the timeout) when nothing can be
 	// handed over right away; a zero-timeout poll must still get data
 	// that is already there.
-	if ((((mq->mq_len == 0) && nni_list_empty(&mq->mq_aio_putq)) ||
+	// (see nni_msgq_aio_put: everything but a servable poll is started)
+	if (((nni_aio_get_timeout(aio) != NNG_DURATION_ZERO) ||
+	        ((mq->mq_len == 0) && nni_list_empty(&mq->mq_aio_putq)) ||
 	        !nni_list_empty(&mq->mq_aio_getq)) &&
 	    (!nni_aio_start(aio, nni_msgq_cancel, mq))) {
 		nni_mtx_unlock(&mq->mq_lock);
